@@ -647,7 +647,10 @@ def oracle_globals(cmd, lv):
             if any(a["id"] in {x["id"] for x in n2["args"]} for n2 in nodes[d + 1:]):
                 continue    # redefined below: shadowing is outside the property
             views = []
-            for i in range(d, len(nodes)):
+            # the matches of an external subcommand (one more level than there are definitions) are created
+            # from the parent command and receive the merged globals as well
+            top = len(lv) if len(lv) == len(nodes) + 1 else len(nodes)
+            for i in range(d, top):
                 e = ent_map(lv[i][0]).get(a["id"])
                 views.append(None if e is None else (e["src"], e["occ"]))
             if any(v is not None and v[0] == "?" for v in views):
